@@ -36,7 +36,8 @@ RULE = ("type-directed random formulas of every sort (Bool/Int/Real/BV/String/Ar
         "symbols named by a name generator (simple, needing quotes, leading digit, spaces, .def_0-like -- in half of the "
         "universes a run of 2-4 CONSECUTIVE .def_k names, k from 0 to 10, given to the Bool/Int symbols --, never reserved "
         "words or literal spellings); scripts made of every serialisable command (incl. define-fun, declare-sort, "
-        "push/pop, OMT commands); a case is non-trivial when the formula is not a leaf; distinct = distinct "
+        "push/pop, OMT commands); sequences of 2-3 script round trips through ONE SmtLibParser object (logic without integers "
+        "first, then integer numerals without set-logic, ...) compared with a fresh parser; a case is non-trivial when the formula is not a leaf; distinct = distinct "
         "(printer, formula) pairs / script texts")
 ASSUMPTIONS = [
     "symbol names never spell a literal, a reserved word, a theory symbol or (for the human-readable part) an HR keyword",
@@ -480,12 +481,13 @@ SCRIPT_PROFILES = {
 }
 
 
-def gen_commands(rng, env, uni, fg, profile):
-    """a list of SmtLibCommand made of every serialisable command"""
+def gen_commands(rng, env, uni, fg, profile, logic="?"):
+    """a list of SmtLibCommand made of every serialisable command (logic: name | None; "?" = drawn from the profile)"""
     mgr = env.formula_manager
     cmds = []
     r = rng
-    logic = r.choice(SCRIPT_PROFILES[profile][1])
+    if logic == "?":
+        logic = r.choice(SCRIPT_PROFILES[profile][1])
     has_int = "int" in uni.theories
     has_real = "real" in uni.theories
     if logic:
@@ -761,6 +763,125 @@ def run_script_roundtrip(ctx, n):
                 break
         for c in cmds:
             ctx.count("cmd_" + c.name)
+
+
+# ------------------------------------------------------------------------------------------
+# one parser object used for several scripts: every script round trip must give what a fresh parser gives
+REUSE_WITNESSES = [
+    # (name, scripts read one after the other by ONE SmtLibParser)
+    ("int-after-QF_LRA", ["(set-logic QF_LRA)(declare-fun r () Real)(assert (< r (/ 1 2)))(check-sat)",
+                          "(declare-fun i () Int)(declare-fun j () Int)(assert (< (+ i 1) (* 2 j)))(assert (= (+ 1 2) 3))"]),
+    ("int-after-QF_BV", ["(set-logic QF_BV)(declare-fun b () (_ BitVec 8))(assert (bvult b #b00001111))",
+                         "(declare-fun p () Bool)(assert (=> p (= (+ 1 2) 3)))(check-sat)"]),
+    ("int-after-QF_UF-unknown-logic", ["(set-logic QF_UF)(declare-fun p () Bool)(assert p)",
+                                       "(set-logic ALL)(declare-fun i () Int)(assert (> (* 3 i) 7))(get-value ((+ i 1)))"]),
+    ("real-after-QF_LIA", ["(set-logic QF_LIA)(declare-fun i () Int)(assert (> i 7))",
+                           "(declare-fun r () Real)(assert (< r 2.5))(assert (= (+ 1 2) 3))",
+                           "(set-logic QF_LRA)(declare-fun s () Real)(assert (< s 3))"]),
+    ("soft-weight-after-QF_RDL", ["(set-logic QF_RDL)(declare-fun r () Real)(declare-fun s () Real)(assert (< (- r s) 3))",
+                                  "(declare-fun q () Bool)(assert-soft q :weight 2)(assert-soft q)(minimize (+ 1 2))"]),
+    ("definitions-do-not-survive", ["(declare-fun i () Int)(define-fun d () Int (+ i 1))(define-sort S () Int)(assert (> d 0))",
+                                    "(declare-fun i () Int)(assert (> i 0))(push 1)(pop 1)"]),
+]
+
+
+def _read_outcome(parser, text):
+    try:
+        with warnings.catch_warnings():
+            warnings.simplefilter("ignore")
+            return ("ok", parser.get_script(io.StringIO(text)))
+    except RecursionError:
+        raise
+    except Exception as e:
+        return ("err", type(e).__name__, str(e)[:200])
+
+
+def _reuse_compare(ctx, env, shared, text, rep, stage, history):
+    """read `text` with the shared parser and with a fresh one; -> the script read by the shared parser, or None"""
+    got = _read_outcome(shared, text)
+    ref = _read_outcome(SmtLibParser(env), text)
+    sig = {"oracle": "script-roundtrip", "kind": "parser-reuse", "stage": stage}
+    if got[0] != ref[0]:
+        ctx.report_s(dict(sig, detail="%s-vs-%s" % (got[0], ref[0])),
+                     "a parser object that has read %d script(s) before %s the text (%s) that a fresh parser %s"
+                     % (history, "rejects" if got[0] == "err" else "accepts", got[1:] if got[0] == "err" else "",
+                        "accepts" if ref[0] == "ok" else "rejects: %s" % (ref[1:],)), dict(rep, text=text))
+        return None
+    if got[0] == "err":
+        ctx.count("reuse_both_reject")
+        return None
+    a, b = got[1].commands, ref[1].commands
+    if len(a) != len(b):
+        ctx.report_s(dict(sig, detail="command-count"), "re-used parser: %d commands, fresh parser: %d" % (len(a), len(b)),
+                     dict(rep, text=text))
+        return None
+    for x, y in zip(b, a):
+        d = compare_commands(env, x, y)
+        if d:
+            ctx.report_s(dict(sig, detail="command-differs", command=x.name),
+                         "a parser object that has read %d script(s) before reads the same text differently from a fresh parser "
+                         "(fresh -> re-used): %s" % (history, d), dict(rep, text=text))
+            return None
+    ctx.count("reuse_agree")
+    return got[1]
+
+
+def run_parser_reuse(ctx, n):
+    """sequences of 2-3 script round trips through ONE SmtLibParser (different logics, with / without set-logic, Int vs Real
+    numerals); every reading is compared with the reading of a fresh parser in the same environment"""
+    quick = ctx.tier == "quick"
+    for name, texts in REUSE_WITNESSES:
+        env = Environment()
+        shared = SmtLibParser(env)
+        ctx.case(("reuse-witness", name))
+        for k, t in enumerate(texts):
+            sc = _reuse_compare(ctx, env, shared, t, {"witness": name, "history": texts[:k]}, "text", k)
+            if sc is not None:
+                t1 = serialize_script(sc.commands, k % 2 == 0, annotations=sc.annotations)
+                _reuse_compare(ctx, env, shared, t1, {"witness": name, "history": texts[:k + 1]}, "re-serialised", k + 1)
+    for i in range(n):
+        if ctx.time_left() < (50 if quick else 200):
+            break
+        env = Environment()
+        names = Names(ctx.rng, esc=False)
+        shared = SmtLibParser(env)
+        r = ctx.rng
+        # a script under a logic WITHOUT integers first, then scripts with integer numerals and no (or an unknown) logic
+        plan = r.choice([[("real", "QF_LRA"), ("int", None)], [("bv", "QF_BV"), ("int", None)], [("real", "QF_RDL"), ("mixed", None)],
+                         [("int", "QF_LIA"), ("real", None), ("int", None)], [("bv", "QF_ABV"), ("mixed", None), ("real", "?")],
+                         [("real", "LRA"), ("int", "?"), ("mixed", "?")], [("int", None), ("real", "QF_LRA"), ("int", None)],
+                         [(r.choice(["mixed", "real", "bv", "int"]), "?") for _ in range(r.choice([2, 3]))]])
+        history, texts = 0, []
+        ctx.count("reuse_sequences")
+        for profile, logic in plan:
+            try:
+                uni = NamedUniverse(env, names, theories=SCRIPT_PROFILES[profile][0], widths=(1, 2, 4, 8))
+            except PysmtException:
+                # (a name of the pool such as __x0 was taken, with another sort, by a fresh parameter symbol that the parser
+                #  made in this environment while reading the previous script)
+                ctx.count("reuse_sequence_cut_name_taken")
+                break
+            fg = gen.FormulaGen(r, uni, max_depth=3, quant_prob=0.05)
+            cmds = gen_commands(r, env, uni, fg, profile, logic=logic)
+            daggify = r.random() < 0.5
+            try:
+                text0 = serialize_script(cmds, daggify)
+            except Exception:
+                break                                   # (reported by the script round trip stream)
+            ctx.case(("reuse", text0))
+            rep = {"daggify": daggify, "history": list(texts)}
+            sc = _reuse_compare(ctx, env, shared, text0, rep, "constructed", history)
+            texts.append(text0)
+            history += 1
+            if sc is None:
+                continue
+            try:
+                text1 = serialize_script(sc.commands, daggify, annotations=sc.annotations)
+            except Exception:
+                continue
+            _reuse_compare(ctx, env, shared, text1, dict(rep, history=list(texts)), "parsed", history)
+            texts.append(text1)
+            history += 1
 
 
 SERIALISABLE = {smtcmd.SET_OPTION, smtcmd.SET_INFO, smtcmd.ASSERT, smtcmd.ASSERT_SOFT, smtcmd.GET_VALUE, smtcmd.MAXIMIZE,
@@ -1444,6 +1565,7 @@ def run(ctx):
     run_smt_roundtrip(ctx, 900 if quick else 15000)
     run_script_roundtrip(ctx, 150 if quick else 2500)
     run_text_script_roundtrip(ctx, 250 if quick else 4000)
+    run_parser_reuse(ctx, 60 if quick else 800)
     run_hr_roundtrip(ctx, 900 if quick else 15000, lines, meta)
     finish_sem(ctx, lines, meta)
     run_model(ctx)
